@@ -148,6 +148,10 @@ fn pvals() -> Vec<Option<Value>> {
 }
 
 fn valuations(thorough: bool) -> Vec<Value> {
+    valuations_named(thorough, ["p", "q", "r"])
+}
+
+fn valuations_named(thorough: bool, names: [&str; 3]) -> Vec<Value> {
     let mut pv = pvals();
     if !thorough {
         // absent, null, "", [], 1
@@ -159,13 +163,13 @@ fn valuations(thorough: bool) -> Vec<Value> {
             for r in &pv {
                 let mut m = Map::new();
                 if let Some(p) = p {
-                    m.insert("p".into(), p.clone());
+                    m.insert(names[0].into(), p.clone());
                 }
                 if let Some(q) = q {
-                    m.insert("q".into(), q.clone());
+                    m.insert(names[1].into(), q.clone());
                 }
                 if let Some(r) = r {
-                    m.insert("r".into(), r.clone());
+                    m.insert(names[2].into(), r.clone());
                 }
                 out.push(Value::Object(m));
             }
@@ -228,12 +232,16 @@ fn to_bits(ids: &[u32], n: usize, dc: &DocCtx) -> Option<Vec<bool>> {
 /// `small_full`: only the formulas with at most one connective (and the negation extras), on all 8^3 valuations;
 /// otherwise all formulas up to k_max on the tier's valuation universe
 fn boolean_part(run: &Run, k_max: usize, small_full: bool, full_vals: bool) -> Acc {
-    let cells = valuations(full_vals);
+    let cells_plain = valuations(full_vals);
+    // members whose names need escaping in a bracketed selector: a/b (spelled with the optional escape of /), a backslash, a space
+    let cells_odd = valuations_named(full_vals, ["a/b", "\\", " "]);
+    let bs = '\\';
     let atom_sets: Vec<[String; 3]> = vec![
         ["@.p".into(), "@.q".into(), "@.r".into()],
         ["@.p==1".into(), "@.q!=0".into(), "@.r==null".into()],
         ["@.p".into(), "@.q==1".into(), "match(@.r,'')".into()],
         ["@['p']".into(), "length(@.q)==0".into(), "$.c0".into()],
+        [format!("@['a{}/b']", bs), format!("@['{}{}']==1", bs, bs), "@[\" \"]".into()],
     ];
     let mut memo = vec![None; k_max + 1];
     let mut forms: Vec<F> = vec![];
@@ -267,6 +275,7 @@ fn boolean_part(run: &Run, k_max: usize, small_full: bool, full_vals: bool) -> A
     let mut total = Acc::new();
     for (ai, as_obj) in jobs {
         let atoms = &atom_sets[ai];
+        let cells = if ai == 4 { cells_odd.clone() } else { cells_plain.clone() };
         // `$.c0` only exists in the object-shaped document; in the array-shaped one it is an absent member: both fine
         let wrap: &(dyn Fn(Vec<Value>) -> Value + Sync) = if as_obj { &wrap_obj } else { &wrap_arr };
         let doc = wrap(cells.clone());
